@@ -223,6 +223,71 @@ func c13Bounds(p *core.Program, r *core.Report, t *types.Named) {
 				}
 			}
 			r.Check(ok, "C13.bounds", tn+".add", pos, "ensure(size+1); table[size]=e; size++", why)
+		case "AddAll", "AddAllArray":
+			// bulk add appends exactly the other list's elements: every loop/copy that moves elements is
+			// bounded by the other side's element count (other.size / len(param)), never by its capacity,
+			// and size advances by that same count
+			info := fi.Pkg.TypesInfo
+			if fi.Decl.Type.Params.NumFields() != 1 {
+				continue
+			}
+			pn := fi.Decl.Type.Params.List[0].Names[0].Name
+			_, isSlice := info.TypeOf(fi.Decl.Type.Params.List[0].Type).Underlying().(*types.Slice)
+			count := pn + ".size"
+			if isSlice {
+				count = "len(" + pn + ")"
+			}
+			var probs []string
+			moved := false
+			ast.Inspect(fi.Decl.Body, func(m ast.Node) bool {
+				switch v := m.(type) {
+				case *ast.CallExpr:
+					if id, ok := v.Fun.(*ast.Ident); ok && id.Name == "copy" && len(v.Args) == 2 {
+						moved = true
+						src := norm(v.Args[1])
+						okSrc := false
+						if isSlice {
+							okSrc = src == pn
+						} else {
+							okSrc = src == pn+".table[:"+pn+".size]" || src == pn+".table[0:"+pn+".size]"
+						}
+						if !okSrc {
+							probs = append(probs, "copies `"+src+"`, which is not exactly the other side's elements (its backing array can be longer than its size): unused slots are appended as phantom elements")
+						}
+					}
+				case *ast.ForStmt:
+					if be, ok := v.Cond.(*ast.BinaryExpr); ok && be.Op == token.LSS {
+						b := norm(be.Y)
+						if id, isId := be.Y.(*ast.Ident); isId {
+							if d := localDefIn(info, fi.Decl.Body, id); d != nil {
+								b = norm(d)
+							}
+						}
+						moved = true
+						if b != count {
+							probs = append(probs, "the copying loop runs to `"+b+"`, not to the other side's element count "+count)
+						}
+					}
+				case *ast.RangeStmt:
+					moved = true
+					rx := norm(v.X)
+					if !(rx == pn || rx == pn+".table[:"+pn+".size]") {
+						probs = append(probs, "ranges over `"+rx+"`, not over exactly the other side's elements")
+					}
+				case *ast.AssignStmt:
+					if len(v.Lhs) == 1 && norm(v.Lhs[0]) == "size" && v.Tok == token.ADD_ASSIGN {
+						rs := norm(v.Rhs[0])
+						if rs != count && rs != "1" && !strings.HasPrefix(rs, "copy(") {
+							probs = append(probs, "size advances by `"+rs+"`")
+						}
+					}
+				}
+				return true
+			})
+			if !moved {
+				probs = append(probs, "no loop or copy moves the elements")
+			}
+			fileProbs(r, "C13.bounds", tn+"."+name, pos, uniq(probs), "appends exactly the other side's elements")
 		case "ensure":
 			// Path rule: whenever ensure(min) returns, the table holds at least `min` slots and the old
 			// contents. On every path that installs a new table: it was made with a size N that the path
@@ -933,4 +998,26 @@ func c13Linked(p *core.Program, r *core.Report, t *types.Named, rule string) {
 			r.OK(rule, c, pos, fmt.Sprintf("%d paths keep first/last/size consistent", len(ps)))
 		}
 	}
+}
+
+// localDefIn: the single definition of a local inside body (nil if none or several).
+func localDefIn(info *types.Info, body *ast.BlockStmt, id *ast.Ident) ast.Expr {
+	obj := info.ObjectOf(id)
+	var def ast.Expr
+	n := 0
+	ast.Inspect(body, func(m ast.Node) bool {
+		if as, ok := m.(*ast.AssignStmt); ok && len(as.Lhs) == len(as.Rhs) {
+			for i, l := range as.Lhs {
+				if lid, ok := l.(*ast.Ident); ok && info.ObjectOf(lid) == obj {
+					def = as.Rhs[i]
+					n++
+				}
+			}
+		}
+		return true
+	})
+	if n == 1 {
+		return def
+	}
+	return nil
 }
